@@ -67,13 +67,15 @@ def IBody.fmls (i : Nat) (v : Term) : IBody → List Fml
   | .resourceCost items =>
       let cs := items.flatMap (fun (c, busy) => (costTerms c busy).1)
       let vs := items.flatMap (fun (c, busy) => (costTerms c busy).2)
-      if vs.isEmpty then [.reqSum v (sumOrZero cs)]
+      if vs.isEmpty && cs.isEmpty then [.reqZero v]
+      else if vs.isEmpty then [.reqSum v (.sum cs)]
       else if cs.isEmpty then [.eq v (.add (numT 0) (.div (.sum vs) (numT 2)))]
       else [.eq v (.add (.sum cs) (.div (.sum vs) (numT 2)))]
   | .idle busy => idleFmls i busy v
   | .maxBuffer levels => getMaximum v levels
   | .minBuffer levels => getMinimum v levels
   | .residue => []
+  | .partial_ fs => fs
 
 /-- `indicator._z3_assertions` -/
 def Indicator.asserts (ind : Indicator) : List Fml := ind.body.fmls ind.id (.var ind.var)
